@@ -202,6 +202,8 @@ def rule_LEAK(ctx, R, rule="R3", roles=("ACQ-SCOPED",), all_fns=False, floor=30)
             continue
         if any(p.kind == "cut" for p in paths) and f.get("unsafe"):
             continue   # algorithm bodies with loops: decided by the held-set engine, not here
+        if (f.get("trait_item") or "").startswith("lockable::RawLock::"):
+            continue   # HL ops themselves: returning with the lock held is their contract (M2, E2, E5 decide them)
         leaks = held_exit_obligation(ctx, R, f, paths)
         if leaks:
             seen = set()
@@ -217,4 +219,23 @@ def rule_LEAK(ctx, R, rule="R3", roles=("ACQ-SCOPED",), all_fns=False, floor=30)
         else:
             res.ok(f["path"])
     res.need(floor, "acquiring functions")
+    return res
+
+
+def rule_SD(ctx, R):
+    """no function acquires (blocking) a receiver it already holds."""
+    res = RuleResult("SD", "no self-deadlock inside one call: no blocking acquisition of a receiver the same call already holds")
+    for f in analysed_fns(ctx):
+        paths, err, I = ctx.paths(f)
+        if err or any(p.kind == "cut" for p in paths):
+            continue
+        if not any(e["k"] == "ACQ" for p in paths for e in p.events):
+            continue
+        bad = [pr for p in paths for pr in p.problems if pr["k"] == "ACQ_WHILE_HELD"]
+        if bad:
+            res.bad(Violation("SD", f["path"], "acq-while-held", "blocking acquisition of %s while this call already holds it in mode %s"
+                              % (ctx.arg_name(f, bad[0]["recv"]), bad[0]["have"]), bad[0].get("file"), bad[0].get("line")))
+        else:
+            res.ok(f["path"])
+    res.need(30, "functions with a blocking acquisition")
     return res
